@@ -165,7 +165,13 @@ func drawFixed(e hx.Entry, w *hx.World) *hx.Call {
 
 func TestRandom(t *testing.T) {
 	ev.Check(t, "TestRandom", ev.PickN(2000, 400000), func(t *rapid.T) {
-		c := hx.GenCreds(hx.Suites24()).Draw(t, "creds")
+		// three quarters of the cases use the must-succeed suites, the rest the
+		// suites with None (which may be refused)
+		suites := hx.Suites9()
+		if rapid.IntRange(0, 3).Draw(t, "noneClass") == 0 {
+			suites = hx.Suites24()
+		}
+		c := hx.GenCreds(suites).Draw(t, "creds")
 		if err := runCase(t, c); err != nil {
 			t.Fatalf("%v", err)
 		}
@@ -227,6 +233,69 @@ func TestEnumerated(t *testing.T) {
 			}
 		}
 	}
+}
+
+// TestTwoSessionsOneConnection: two sessions (different users and suites) opened
+// over the same connection and used alternately; each must keep agreeing with
+// the BMC's keys for that session.
+func TestTwoSessionsOneConnection(t *testing.T) {
+	cat := hx.Catalogue()
+	ev.Check(t, "TestTwoSessionsOneConnection", ev.PickN(600, 60000), func(t *rapid.T) {
+		a := hx.GenCreds(hx.Suites9()).Draw(t, "credsA")
+		b := hx.GenCreds(hx.Suites9()).Draw(t, "credsB")
+		b.KG = a.KG // the BMC key is per BMC
+		if b.User == a.User {
+			b.User = (a.User + "x")
+			if len(b.User) > 16 {
+				b.User = "x"
+			}
+		}
+		w := hx.NewWorldFor(a, true)
+		w.BMC.Users[b.User] = b.Password
+		ctx := context.Background()
+		sa, err := w.T.NewV2Session(ctx, a.Opts())
+		if err != nil {
+			t.Fatalf("session A: %v", err)
+		}
+		sb, err := w.T.NewV2Session(ctx, b.Opts())
+		if err != nil {
+			t.Fatalf("session B on the same connection: %v; BMC: %v", err, w.BMC.AllProblems())
+		}
+		ev.Eval()
+		for _, p := range []struct {
+			s *bmc.V2Session
+			c hx.Creds
+		}{{sa, a}, {sb, b}} {
+			bs := w.BMC.Sessions[p.s.RemoteID]
+			if bs == nil || !bytes.Equal(p.s.SIK, bs.SIK) || !bytes.Equal(p.s.K(1), bs.K1) || !bytes.Equal(p.s.K(2), bs.K2) || p.s.LocalID != bs.ConsoleID {
+				t.Fatalf("session of user %q: keys or IDs differ from the BMC's", p.c.User)
+			}
+		}
+		n := rapid.IntRange(2, 8).Draw(t, "commands")
+		for i := 0; i < n; i++ {
+			s := sa
+			if rapid.Bool().Draw(t, "useB") {
+				s = sb
+			}
+			call := rapid.SampledFrom(cat).Draw(t, "command").Prepare(t, w.BMC)
+			before := len(w.BMC.Log)
+			code, err := s.SendCommand(ctx, call.Cmd)
+			if err != nil {
+				t.Fatalf("command %s on session %#x failed: %v; BMC: %v", call.Name, s.RemoteID, err, w.BMC.AllProblems())
+			}
+			rx := w.BMC.Log[before]
+			if len(w.BMC.Log) != before+1 || len(rx.Problems) > 0 || rx.Sess == nil || rx.Sess.ID != s.RemoteID || !rx.AuthOK {
+				t.Fatalf("command %s on session %#x: BMC verdict %v", call.Name, s.RemoteID, rx.Problems)
+			}
+			if code == 0 {
+				if err := call.Check(); err != nil {
+					t.Fatalf("command %s: %v", call.Name, err)
+				}
+			}
+		}
+		ev.Label("two-sessions")
+		ev.NonTrivial(fmt.Sprintf("two|%v|%v|%d|%d", a.Suite, b.Suite, a.Seed, b.Seed))
+	})
 }
 
 func TestCoverage(t *testing.T) {
